@@ -308,7 +308,9 @@ def main():
     exe = common.build_ocaml(PID)
     quick = c.tier == "quick"
     rng = c.rng
-    n_pr, n_ne, n_cn = (150, 70, 130) if quick else (6000, 3000, 5000)
+    n_pr, n_ne, n_cn = (150, 70, 130) if quick else (2400, 1200, 2000)
+    if os.environ.get("VERIF_C04_N"):      # development aid: "pairs,nested,contain"
+        n_pr, n_ne, n_cn = [int(x) for x in os.environ["VERIF_C04_N"].split(",")]
     pairs = [gen_pair(rng, i) for i in range(n_pr)] + [gen_nested(rng, n_pr + i) for i in range(n_ne)]
     conts = [gen_contain(rng, i) for i in range(n_cn)]
     if c.replay:
@@ -375,6 +377,12 @@ def main():
                     if r.get("host_contains_guest") is False:
                         c.violation("containment", "containsObject of the host's occupiedSpace rejects a guest certified strictly inside one of its convex pieces",
                                     dict(case=case, guest_pos=r.get("guest_pos"), slack=nc["slack"]))
+            hc = r.get("host_contains_guest_all")
+            if hc is not None:
+                c.hist("pair:nested:containsObject-sampled-thrice")
+                if len(set(hc)) > 1:
+                    c.violation("containment", "containsObject of the host's occupiedSpace depends on the random candidate points drawn (numpy seeds 1,2,3)",
+                                dict(case=case, guest_pos=r.get("guest_pos"), answers=hc))
             if case.get("nested") == "in-cavity" and truth_val is False and r.get("host_contains_guest"):
                 c.violation("containment", "containsObject of the host's occupiedSpace accepts a guest certified disjoint from it (inside its cavity)",
                             dict(case=case, guest_pos=r.get("guest_pos")))
